@@ -98,31 +98,40 @@ SPEC = {
         'liveness only: Send calls succeed, request ids do not repeat (crypto/rand 64 bit), at most F_home dishonest '
         'observers per lane, honest nodes answer requests sent to them correctly',
     ],
-    'level_text': 'PARTIAL. Proof: 20 Coq theorems over the executable two-phase model, for every configuration, every schedule '
-                  'parameter and every event list (induction over the list): phase A hands on only with F_home+1 DISTINCT '
-                  'configured observers per lane whose signed responses carry the same root for exactly the requested lane and '
-                  'interval; success only with F_remote+1 DISTINCT configured signers valid for exactly the returned report, '
-                  'ascending by address, lanes exactly the supported requested ones; terminal by the CtxDone event; no panic for '
-                  'any event list; liveness (enough honest timely answers => success whatever else arrives); refutation '
-                  'theorems with concrete witnesses for the pre-repair code (F12a nil sub-message / short root panics, F12b '
-                  'one node counted twice, and the comparator panic that F12b made reachable); no node is sent two observation requests or has two accepted observations; C06_lane_source_exact — a counted lane update names exactly the requested lane: requested selector and an on-ramp address byte-equal to the last 20 bytes of the requested address, hence of exactly that length (no shorter tail, no longer string with the same tail). Histories (induction over the list of calls on one long-lived controller, '
-                  'every configuration sequence): C06_history_memoryless — the multi-call machine over the concatenated history equals the single-call machine '
-                  'mapped over the calls, so the result of call k depends on call k\'s configuration and event list alone; C06_history_sig_threshold / '
-                  'C06_history_obs_threshold — both thresholds hold for every call of every history against the configuration current at that call, witnessed by '
-                  'responses among that call\'s own events; C06_history_leftover_ignored — with request ids that never repeat, answers to earlier calls arriving '
-                  'during a later call change nothing; C06_history_example (observer set shrinks under the same digest: second call ErrNothingToDo). Correspondence: the real controller is driven through generated schedules every '
-                  'run and compared with the model on the full observable; sequences of calls on one long-lived controller with the environment changing between the calls are '
-                  'driven and compared call by call (sinks C06_hist*). Not covered (hence partial): which of several '
-                  'simultaneously ready select cases Go picks beyond the pairs exercised as race items, and real wall-clock '
-                  'deadlines (the model has the event CtxDone, timers are "due / not due")',
-    'level_note': 'Trusted: Coq kernel, hand-written model, differential harness and its parked-goroutine protocol. Signature '
-                  'verification, protobuf decoding and the peer layer are oracles / inputs. No axioms. The model follows the '
-                  'repaired code (fixes/F12.patch); until that patch is in the repository the check reports the F12 violations.',
-    'modelled': 'ComputeReportSignatures, populateUpdatesPerChain and the F filter, getRmnSignedObservations (initial request '
-                'loop), sendObservationRequests, listenForRmnObservationResponses, parseResponse, '
-                'validateSignedObservationResponse (+ validateRootLengths; the on-ramp comparison bytes.Equal(typconv.KeepNRightBytes(requested, 20), observed) on byte strings of any length), gotSufficientObservationResponses, selectRoots, '
-                'transformAndSortObservations (order, and the index-out-of-range panic of its comparator for two observations of one node), sendReportSignatureRequest, listenForRmnReportSignatures, '
-                'validateReportSigResponse, sortAndParseReportSigs; GetRMNNodesInfo / GetF answers, chain-selectors lookup, '
-                'map orders, shuffles, request ids and Send failures are inputs of the model; the long-lived controller as a history machine over calls '
-                '(Model/RmnHist.v: only the position in the request-id stream is threaded from call to call; NewController, InitConnection pass-through)',
+    'level_text': 'PARTIAL. Proof: 38 closed Coq theorems. 25 property theorems over the executable two-phase machine (gstep over Resp | TimerFire | CtxDone), for every '
+                  'configuration, schedule parameter and event list: phase A hands on only with F_home+1 DISTINCT configured observers per lane whose signed responses '
+                  'carry the same root for exactly the requested lane and interval (C06_obs_threshold, C06_lane_source_exact: selector and the last 20 bytes of the '
+                  'requested on-ramp); success only with F_remote+1 DISTINCT configured signers valid for exactly the returned report, strictly ascending by address '
+                  '(C06_sig_threshold, C06_sigs_strictly_ordered); the call ends on CtxDone and never panics (C06_total_terminates, C06_total_no_panic); liveness: enough '
+                  'honest timely answers give success whatever else arrives (C06_liveness, _obs); no node is asked or counted twice (C06_one_observation_per_node); '
+                  'requests are well formed and every error kind has its origin (C06_requests_wellformed, C06_phaseA_no_sig_request, C06_failure_origin). Histories of '
+                  'calls on one long-lived controller: the multi-call machine equals the single-call machine per call, both thresholds hold in every call against that '
+                  "call's configuration, late answers to earlier calls change nothing (C06_history_memoryless, _sig_threshold, _obs_threshold, _leftover_ignored). "
+                  'Unrepaired code refuted (F12, repaired in /repo): one node counted twice, nil sub-message panic, comparator panic. Judge soundness (13 C06_judge_*): '
+                  'for every sink the executable property - result, Send log, error kind and a liveness twin - accepts every outcome the model allows and implies the '
+                  'Prop-level clauses. Correspondence, every run: the real ComputeReportSignatures through a scripted PeerClient, each item delivered only when the '
+                  'controller is parked in its select (GOMAXPROCS=1), race items compared with the SET of outcomes the model allows; ONE controller from NewController '
+                  'over 2..4 calls with RMNHome / RMNRemote configuration changing (C06_hist*); the observer sets are tied to the RMNHome bitmaps by the borrowed C18 '
+                  'bitmap / conversion parts. Translation tie (6 theorems, C06_gen.v + C18_gen.v): GteFPlusOne, LtFPlusOne, IsNodeObserver. Partial because: which of '
+                  'several simultaneously ready select cases Go picks beyond the exercised race pairs, and real wall-clock deadlines (timers are due / not due, '
+                  'cancellation is the event CtxDone), are outside the model.',
+    'level_note': 'Trusted: Coq kernel, hand-written model and theorem statements, differential harness with its parked-goroutine protocol (goroutine status strings of '
+                  'runtime.Stack, go 1.23 timers with one P; a case that came out as a hang is re-run before it is reported), leaf translator. Specific: ed25519 '
+                  'verification and RMNCrypto.VerifyReportSignatures are oracles (Section variables; the harness stubs are keyed by the signer and bind the signed bytes '
+                  'to an independently computed preimage); protobuf decoding is modelled (garbage or a Response; absent sub-messages nil; no nil elements in repeated '
+                  'fields); the PeerClient attributes a response to the stream it arrived on. Theorem hypotheses: RMNHome node ids, remote signer node indexes and signer '
+                  'addresses pairwise distinct; liveness only: Send succeeds, request ids do not repeat (crypto/rand 64 bit), at most F_home dishonest observers per '
+                  'lane; f+1 does not overflow int. The model follows the repaired code (F12 is committed in /repo). No axioms.',
+    'technique': 'Coq theorems by induction over event lists and call histories on a hand-written two-phase Gallina machine (res monad for panic / hang); '
+                 'scripted-PeerClient correspondence with parked-select delivery, set-valued model outcomes for races and a proved judge; threshold tests and '
+                 'IsNodeObserver re-translated from Go. Partial: select scheduling, wall clock',
+    'modelled': 'ComputeReportSignatures, populateUpdatesPerChain and the F filter, getRmnSignedObservations (initial request loop), sendObservationRequests, '
+                'listenForRmnObservationResponses, parseResponse, validateSignedObservationResponse (+ validateRootLengths; the on-ramp comparison '
+                'bytes.Equal(typconv.KeepNRightBytes(requested, 20), observed) on byte strings of any length), gotSufficientObservationResponses, selectRoots, '
+                'transformAndSortObservations (order, and the index-out-of-range panic of its comparator for two observations of one node), sendReportSignatureRequest, '
+                'listenForRmnReportSignatures, validateReportSigResponse, sortAndParseReportSigs; GetRMNNodesInfo / GetF answers, chain-selectors lookup, map orders, '
+                'shuffles, request ids and Send failures are inputs of the model; the long-lived controller as a history machine over calls (Model/RmnHist.v: only the '
+                'position in the request-id stream is threaded from call to call; NewController, InitConnection pass-through). Translated from source per run: '
+                'consensus.GteFPlusOne, LtFPlusOne (C06_gen.v), reader.IsNodeObserver (C18_gen.v). Not modelled: Go select choice among several ready cases, timer '
+                'wall-clock values, the real PeerClient / ragep2p transport, protobuf wire parsing',
 }
